@@ -458,3 +458,84 @@ def conn_reg_race(rng):
     dev = {"type": "scripted", "latency": 0.02, "unsolicited": unsol}
     return {"kind": "conn", "device": dev, "log_size": 0, "threads": threads, "pre_register": pre, "callbacks": {},
             "hot": "register_message_callback|_call_registered_message_callbacks", "hot_budget": rng.choice([6, 12, 24])}
+
+
+# ---------------------------------------------------------------------------------------------- end-to-end ("wire") sessions
+def _wire_value(rng, T, f):
+    from .props.c03 import value_for
+    ks = [f["conv"]["k"]] if f["conv"]["k"] != "multi" else [k["k"] for k in f["conv"]["items"]]
+    if ks == ["str"] and rng.random() < 0.5:
+        return rng.choice(["trail ", " lead", "  ", "two\nlines", "tab\there", "", "cr\rin", "a:b=c", "=", ":", "x\n", "\nx", "é", "Rock & Roll ", "ends=",
+                           "http://host/stream?id=42", "Ratio: 1=1", "a=b:c=d"])
+    return value_for(rng, T, f, undecodable_ok=True)
+
+
+def _tok(v):
+    from .l3 import pyval_token
+    from .wire import Obj
+    if type(v).__name__ == "Obj":
+        return "o"
+    if isinstance(v, float) and v == float("inf"):
+        return "finf"
+    return pyval_token(v)
+
+
+def subunit_wire(rng, T, writes=True):
+    from .props import c05
+    c = rng.choice(T["classes"])
+    readable = [f for f in c["fns"] if f["get"] and not (c["id"] == "SYS" and f["name"] in ("MODELNAME", "VERSION"))]
+    writable = [f for f in c["fns"] if f["put"]]
+    t = 1.0
+    unsol, ops = [], []
+    for _ in range(rng.randint(3, 10)):
+        k = rng.random()
+        if readable and k < 0.72:
+            f = rng.choice(readable)
+            line = f"@{c['id']}:{f['name']}={_wire_value(rng, T, f)}"
+        elif k < 0.82:
+            o = rng.choice(T["classes"])
+            f = rng.choice(o["fns"])
+            line = f"@{rng.choice([o['id'], 'FOO', c['id'].lower(), c['id'] + '2'])}:{rng.choice([f['name'], 'NOSUCH', f['name'].lower()])}={_wire_value(rng, T, f)}"
+            f = None
+        elif k < 0.92:
+            line, f = rng.choice(["@UNDEFINED", "@RESTRICTED"]), None
+        else:
+            line, f = rng.choice(MALFORMED).replace("\r\n", "\r \n"), None
+        if "SYS:VERSION" in line or "SYS:MODELNAME" in line:
+            continue
+        unsol.append([round(t, 3), line])
+        ops.append(["until", round(t + 0.3, 3)])
+        for f2 in ([f] if f else []) + rng.sample(readable, min(len(readable), 2)):
+            ops.append(["read", f2["attr"]])
+        if writes and writable and rng.random() < 0.7:
+            f3 = rng.choice(writable)
+            v, _validity = rng.choice(c05.candidate_values(rng, T, f3, False))
+            if f3["get"]:
+                ops.append(["read", f3["attr"]])
+            for _r in range(rng.choice([1, 1, 2, 3])):               # the same assignment several times in a row: each is its own PUT
+                ops.append(["assign", f3["attr"], _tok(v)])
+            if f3["get"]:
+                ops.append(["read", f3["attr"]])
+        if writes and c["actions"] and rng.random() < 0.5:
+            a = rng.choice(c["actions"])
+            args = rng.choice(c05.action_argsets(rng, a["kind"]))
+            for _r in range(rng.choice([1, 1, 2, 3])):
+                ops.append(["act", a["meth"], [_tok(x) for x in args]])
+        t += rng.choice([0.5, 1.0, 2.5])
+    ops.append(["until", round(t + 0.5, 3)])
+    for f2 in rng.sample(readable, min(len(readable), 6)):
+        ops.append(["read", f2["attr"]])
+    table = device_table(rng, T, [c["id"]], p_answer=0.5) if rng.random() < 0.5 else {}
+    dev = {"type": "scripted", "latency": 0.02, "table": table, "unsolicited": unsol, "echo_put": False}
+    if rng.random() < 0.3:
+        dev["chunk"] = rng.randrange(1, 10 ** 6)
+    init = rng.random() < 0.5
+    if init:
+        # initialisation occupies the first seconds: shift the script behind it
+        shift = 0.12 * (len([f for f in c["fns"] if not f["no_init"]]) + 4) + 1.0
+        for u in unsol:
+            u[0] = round(u[0] + shift, 3)
+        for o in ops:
+            if o[0] == "until":
+                o[1] = round(o[1] + shift, 3)
+    return {"kind": "subunit_wire", "class": c["py"], "expect_id": c["id"], "device": dev, "ops": ops, "initialize": init, "settle": 4.0}
